@@ -210,7 +210,13 @@ def correspond(ctx):
                 check_positive(ctx, impl, q, a, a + len(e), polarity, e, 'polarity-emoji',
                                sig_hint=lambda rs: 'emoji-unreachable' if rs == [] else 'polarity-emoji')
                 ctx.count('pipeline-emoji-alternatives')
-    # 2. a filler word that contains the alternative as a substring comes first
+    # 2. a filler word that contains the alternative as a substring comes first (real words, then synthetic)
+    for q, a, w, pol in (('nobody said no', 12, 'no', False), ('yesterday I said yes', 17, 'yes', True),
+                         ('okay ok', 5, 'ok', True)):
+        queries.append(q)
+        check_positive(ctx, impl, q, a, a + len(w), pol, w, 'polarity-word',
+                       sig_hint=lambda rs, a=a: 'first-occurrence-span' if (rs and len(rs) == 1 and rs[0].start < a) else 'polarity-word')
+        ctx.count('pipeline-substring-filler')
     for polarity, words in ((True, tw), (False, fw)):
         for w in words:
             for filler in ('q' + w + 'q', w + 'body', 'un' + w):
@@ -221,12 +227,6 @@ def correspond(ctx):
                                sig_hint=lambda rs, a=a: 'first-occurrence-span' if (
                                    rs and len(rs) == 1 and rs[0].start < a) else 'polarity-word')
                 ctx.count('pipeline-substring-filler')
-    for q, a, w, pol in (('nobody said no', 12, 'no', False), ('yesterday I said yes', 17, 'yes', True),
-                         ('okay ok', 5, 'ok', True)):
-        queries.append(q)
-        check_positive(ctx, impl, q, a, a + len(w), pol, w, 'polarity-word',
-                       sig_hint=lambda rs, a=a: 'first-occurrence-span' if (rs and len(rs) == 1 and rs[0].start < a) else 'polarity-word')
-        ctx.count('pipeline-substring-filler')
     # 3. neutral strings
     r = ctx.rng('neutral')
     neutral = list(NEUTRAL)
